@@ -101,9 +101,15 @@ def volume_model_cases(ctx, n):
         hs = [[K.dy_pos(rng) for _ in range(m)] for m in shape]
         grid = emg3d.TensorMesh(hs, (0, 0, 0))
         casek = c % 4
-        has_mu, has_eps = rng.random() < 0.5, rng.random() < 0.5
-        lap = rng.random() < 0.4
+        # all four (mu_r, epsilon_r) combinations in turn; every second case at a frequency /
+        # Laplace parameter where the displacement term s eps0 eps_r is comparable to sigma
+        has_mu, has_eps = bool((c // 2) & 1), bool((c // 2) & 2)
+        if c >= 16:
+            has_mu, has_eps = rng.random() < 0.5, rng.random() < 0.5
+        lap = (c % 3 == 1) if c < 16 else rng.random() < 0.4
         freq = -K.dy_pos(rng) if lap else K.dy_pos(rng)
+        if c % 2 == 0:
+            freq *= 2.0**24 if not lap else 2.0**27
 
         def prop():
             return np.array(K.rand_arr(rng, shape, False, pos=True), float)
@@ -219,7 +225,7 @@ def correspondence(ctx):
                                 'flat_index': bad[0], 'impl': str(iv[bad[0]]),
                                 'model': str(mv[bad[0]])})
         seen.add((c['shape'], c['cplx']))
-    nvm, nvm_nt, vm_samples = check_volume_model(ctx, 16 if ctx.thorough else 6, dis)
+    nvm, nvm_nt, vm_samples = check_volume_model(ctx, 32 if ctx.thorough else 8, dis)
     return {
         'evaluations': len(cases) * 2 + nvm,
         'distinct_nontrivial': len(seen) + nvm_nt,
